@@ -558,7 +558,7 @@ func c06Targets(rng *RNG) (method, target string, hdrs []string, body string) {
 	case 1, 2:
 		target = "/v2/" + repo + "/blobs/" + dg
 		if rng.Chance(1, 2) {
-			hdrs = append(hdrs, "Range", pick(rng, []string{"bytes=0-4", "bytes=2-", "bytes=5-2", "bytes=0-0", "bytes=-3", "bytes=0-1,3-4", "bytes=3-3", "bytes=10-20", "bytes=11-", "lines=0-1", "bytes=a-b", "bytes=99999999999999999999-", "bytes= 1 - 3 ", "bytes=,"}))
+			hdrs = append(hdrs, "Range", pick(rng, []string{"bytes=0-4", "bytes=2-", "bytes=5-2", "bytes=0-0", "bytes=5-4", "bytes=1-0", "bytes=10-9", "bytes=0--1", "bytes=9-9", "bytes=0-9", "bytes=4-7", "bytes=-3", "bytes=0-1,3-4", "bytes=3-3", "bytes=10-20", "bytes=11-", "lines=0-1", "bytes=a-b", "bytes=99999999999999999999-", "bytes= 1 - 3 ", "bytes=,"}))
 		}
 	case 3, 4:
 		last := tag
@@ -612,6 +612,18 @@ func c06Targets(rng *RNG) (method, target string, hdrs []string, body string) {
 		target = "/v2"
 		for i := 0; i < n; i++ {
 			target += "/" + pick(rng, alpha)
+		}
+	}
+	if body != "" && rng.Chance(1, 5) {
+		// a body of unknown length (chunked transfer encoding) on whatever the request is
+		has := false
+		for i := 0; i+1 < len(hdrs); i += 2 {
+			if hdrs[i] == "Content-Length" || hdrs[i] == "Transfer-Encoding" {
+				has = true
+			}
+		}
+		if !has {
+			hdrs = append(hdrs, "Transfer-Encoding", "chunked")
 		}
 	}
 	if rng.Chance(1, 12) {
@@ -813,6 +825,20 @@ func (*c06) Oracle(c Case, impl []string) []Failure {
 		case ociverif.ReqBlobGet:
 			need("Docker-Content-Digest")
 			clen()
+			if rg := s.reqHeader.Get("Range"); s.status < 300 {
+				var a, b int64
+				if n, _ := fmt.Sscanf(rg, "bytes=%d-%d", &a, &b); n == 2 && fmt.Sprintf("bytes=%d-%d", a, b) == rg {
+					switch {
+					case b < a:
+						// last < first is not a byte range at all
+						fail("srv-inverted-range-served", "server_error_shape", "an error status for Range: "+rg, strconv.Itoa(s.status))
+					case t[1] != "recmid" && t[1] != "recfail" && a >= 0 && b < 10 && s.parsed.Digest == sha256Digest([]byte("0123456789")):
+						if string(s.body) != "0123456789"[a:b+1] {
+							fail("srv-range-bytes", "server_success_headers", "the bytes "+rg+" of the blob", string(s.body))
+						}
+					}
+				}
+			}
 			if s.status == 206 {
 				var a, b, size int64
 				if n, _ := fmt.Sscanf(h.Get("Content-Range"), "bytes %d-%d/%d", &a, &b, &size); n != 3 || b-a+1 != int64(len(s.body)) {
